@@ -395,6 +395,9 @@ SUBMIT_JOB_CUSTOM_CIPHER(IMB_JOB *job)
 __forceinline IMB_JOB *
 FLUSH_JOB_CUSTOM_CIPHER(IMB_JOB *job)
 {
+        /* no job ever waits in a custom cipher: one that is done with it waits in its other stage */
+        if (job->status & IMB_STATUS_COMPLETED_CIPHER)
+                return NULL;
         return JOB_CUSTOM_CIPHER(job);
 }
 
@@ -419,6 +422,9 @@ SUBMIT_JOB_CUSTOM_HASH(IMB_JOB *job)
 __forceinline IMB_JOB *
 FLUSH_JOB_CUSTOM_HASH(IMB_JOB *job)
 {
+        /* no job ever waits in a custom hash: one that is done with it waits in its other stage */
+        if (job->status & IMB_STATUS_COMPLETED_AUTH)
+                return NULL;
         return JOB_CUSTOM_HASH(job);
 }
 
